@@ -552,8 +552,11 @@ func ruleInvalidate(c *Ctx) {
 		}
 		sp.Branch = func(t *Tracer, fr *Frame, i *ssa.If, dir bool) []Ev {
 			if x, op, k, ok := cmpConst(i.Cond); ok {
-				if fl, _ := fieldLoad(x); fl == fState && k == 0 && ((op == token.EQL) == dir) && (op == token.EQL || op == token.NEQ) {
-					return []Ev{{Kind: "disposed"}}
+				if fl, _ := fieldLoad(x); fl == fState && k == 0 && (op == token.EQL || op == token.NEQ) {
+					if (op == token.EQL) == dir {
+						return []Ev{{Kind: "disposed"}}
+					}
+					return []Ev{{Kind: "live"}}
 				}
 			}
 			return nil
@@ -564,7 +567,7 @@ func ruleInvalidate(c *Ctx) {
 	{
 		c.inst(1)
 		tr := runTrace(p, re, mk())
-		bad := ""
+		bad, bad2, bad3 := "", "", ""
 		for _, path := range tr.Paths {
 			if hasKind(path, "disposed") {
 				continue
@@ -580,8 +583,19 @@ func ruleInvalidate(c *Ctx) {
 			if j := indexKind(path, "handleReaccess"); j >= 0 && j < i {
 				bad = "handleReaccess before the verdict is cleared: " + tr.FmtPath(path)
 			}
+			// a trigger is carried out now or recorded for later — never dropped because a re-check is
+			// already pending (its answer belongs to the token the request carried)
+			if !hasKind(path, "flags") && !hasKind(path, "handleReaccess") {
+				bad2 = "a trigger is neither carried out nor recorded: the answer of the pending check, made for the earlier token, is cached and gates later calls: " + tr.FmtPath(path)
+			}
+			// a disposed subscription (its connection may be gone) starts no new access request
+			if !hasKind(path, "live") {
+				bad3 = "a trigger reaches the re-check without having excluded a disposed subscription: an access request goes out on behalf of a connection that has been disposed: " + tr.FmtPath(path)
+			}
 		}
 		c.check(bad == "", fnName(re), "cached verdict cleared on every trigger", p.Pos(re.Pos()), fmt.Sprintf("%d paths: every non-disposed path stores nil to Subscription.access first", len(tr.Paths)), bad)
+		c.check(bad2 == "", fnName(re), "every trigger is carried out or recorded", p.Pos(re.Pos()), "every non-disposed path sets the deferred flag or runs handleReaccess", bad2)
+		c.check(bad3 == "", fnName(re), "a disposed subscription starts no re-check", p.Pos(re.Pos()), "every acting path has excluded the disposed state", bad3)
 	}
 	// handleReaccess: verdict cleared before loadAccess; gate closed before the request; continuation validates then opens the gate
 	{
